@@ -23,6 +23,8 @@ class SimLoop(base_events.BaseEventLoop):
         self._transports_rx = []                 # transports that may have rx work
         self.actor = None
         self.handles_run = 0
+        self._asleep = False
+        self._woken = False
         self.iterations = 0
         world.timer_sources.append(self._next_timer)
 
@@ -32,7 +34,9 @@ class SimLoop(base_events.BaseEventLoop):
 
     # -- no self-pipe, no selector ----------------------------------------
     def _write_to_self(self):
-        pass
+        # the self-pipe write of call_soon_threadsafe: the only thing (besides I/O and timers) that
+        # wakes a loop sleeping in select()
+        self._woken = True
 
     def _process_events(self, event_list):
         pass
@@ -62,7 +66,11 @@ class SimLoop(base_events.BaseEventLoop):
         return False
 
     def _has_work(self):
-        if self._ready or self._stopping:
+        if self._stopping:
+            return True
+        if self._ready and (not self._asleep or self._woken):
+            # a handle appended by another thread WITHOUT the threadsafe wake-up does not end the
+            # select() of a sleeping loop - it runs only when something else wakes the loop
             return True
         if self._io_ready():
             return True
@@ -75,7 +83,12 @@ class SimLoop(base_events.BaseEventLoop):
     def _run_once(self):
         w = self.world
         if not self._has_work():
-            w.block_until(self._has_work, "loop.idle")
+            self._asleep = True
+            try:
+                w.block_until(self._has_work, "loop.idle")
+            finally:
+                self._asleep = False
+        self._woken = False
         self.iterations += 1
         # 1. I/O events: everything in the inbox, at most one event per transport
         while self._inbox:
@@ -245,6 +258,8 @@ class SimTransport(transports._FlowControlMixin, transports.Transport):
         self.bytes_received = 0
         if server is not None:
             server._attach()
+        if net.wbuf_high is not None:
+            self.set_write_buffer_limits(high=net.wbuf_high, low=0)
         loop._transports_rx.append(self)
 
     # ---- loop side -----------------------------------------------------
@@ -343,7 +358,12 @@ class SimTransport(transports._FlowControlMixin, transports.Transport):
         self._paused = False
 
     def get_write_buffer_size(self):
-        return 0
+        # with back-pressure enabled (drawn per run) everything written and not yet taken by the
+        # network counts as buffered, so writer.drain() really suspends the sender
+        if self.net.wbuf_high is None:
+            return 0
+        p = self.conn.pipes[self.side]
+        return 0 if p.dead else len(p.buf)
 
     def write(self, data):
         if not isinstance(data, (bytes, bytearray, memoryview)):
@@ -357,6 +377,10 @@ class SimTransport(transports._FlowControlMixin, transports.Transport):
             return
         self.bytes_written += len(data)
         self.net._send(self, bytes(data))
+        if self.net.wbuf_high is not None:
+            self._maybe_pause_protocol()
+            if self._protocol_paused:
+                self.net.stats["net_backpressure_pauses"] += 1
 
     def writelines(self, list_of_data):
         self.write(b"".join(bytes(d) for d in list_of_data))
@@ -428,6 +452,9 @@ class SimNet:
         ch = world.ch
         # 0: deliver whole buffers, 1: drawn fragments, 2: tiny fragments
         self.frag_mode = ch.weighted([2, 5, 2], "frag_mode") if frag_mode is None else frag_mode
+        # write back-pressure knob (drawn per run): None = the kernel absorbs every write at once (drain()
+        # never suspends); 0 / 64 = the sender is paused until the network has taken its bytes
+        self.wbuf_high = [None, None, None, 0, 64][ch.draw(5, "wbuf_high")]
         self.cut_plans = []           # callables(conn) -> None, applied to new connections
         self.on_deliver = None
         world.pseudo_sources.append(self._enabled)
@@ -597,6 +624,10 @@ class SimNet:
                 return
             frag = bytes(p.buf[:n])
             del p.buf[:n]
+            src = p.src
+            if self.wbuf_high is not None and src is not None and src._protocol_paused and not src._conn_lost:
+                # the network took bytes: the sender's transport may resume its protocol (on its own loop)
+                src._loop._inbox.append(src._maybe_resume_protocol)
             self._deliver_bytes(conn, p, dst, frag)
             if n < len(frag) + len(p.buf):
                 self.stats["net_fragments"] += 1
@@ -634,6 +665,7 @@ class SimNet:
         conn.cut = True
         self.stats[f"net_cut_{kind}"] += 1
         self.world.note(f"net cut c{conn.cid} {kind}")
+        unsent = [bool(p.buf) for p in conn.pipes]
         for p in conn.pipes:
             p.buf.clear()
             p.fin = False
@@ -641,7 +673,10 @@ class SimNet:
         for tr in conn.ends:
             if tr is None or tr._conn_lost:
                 continue
-            if kind == "rst":
+            if kind == "rst" or unsent[tr.side] or tr._protocol_paused:
+                # an end that still had bytes to send (or is paused in drain()) learns of the loss through
+                # a reset when its kernel retransmits into the dead connection - a bare FIN would leave a
+                # paused writer suspended for ever, which no real TCP peer does
                 if tr.rx_err is None:
                     tr.rx_err = ConnectionResetError(104, "Connection reset by peer")
             else:
